@@ -1,4 +1,6 @@
 import JSL.Model.Step
+import JSL.Inv.EnvReach
+import JSL.Props.Example
 
 /-!
 # C01 — every schedule the environment produces is feasible
@@ -27,5 +29,45 @@ theorem c01_handler_total (a b : MSt) (h : machineValid a b = true) :
 /-- a due machine is moved along the cycle, never elsewhere -/
 theorem c01_timed_follows_cycle (a b : MSt) (h : machineTimedNext a = some b) : machineValid a b = true := by
   cases a <;> cases b <;> first | rfl | (exact absurd h (by decide))
+
+/-! ## Part 2 — along every execution -/
+
+variable {orc : Oracle} {inst : Instance}
+
+/-- **C01, state-machine level.**  Every state of every execution with admissible actions –
+results, sub-states and the post-state of every applied transition – carries a feasible
+schedule: operations are those specified, in order and non-overlapping within a job, and no
+machine runs two operations at overlapping times. -/
+theorem c01_feasible {cfg : SMConfig} {s0 σ : State} (hst : Start orc inst s0) (h : OccursA orc inst cfg s0 σ) :
+    Feasible inst σ := by
+  obtain ⟨w, hI, hS⟩ := occursA_inv hst h
+  exact feasible_of_inv w hI hS
+
+/-- the final result (shop done, clock stamped with the makespan) too -/
+theorem c01_feasible_final {cfg : SMConfig} {s0 s : State} (hst : Start orc inst s0) (h : OccursA orc inst cfg s0 s)
+    {a : Action} (ha : Admissible a) {fuel : Nat} {r r' : Rng} {res : SMResult} {mic : List State}
+    (hstep : smStep orc inst cfg fuel s r a = .ok (res, r', mic)) : Feasible inst res.state := by
+  obtain ⟨w, _, _⟩ := occursA_inv hst h
+  obtain ⟨hI, t, hS⟩ := final_inv hst h ha hstep
+  exact (feasible_of_inv (s := { res.state with time := t }) w (hI.time t) hS).of_time
+
+/-- **C01, environment level: whatever the agent does.**  Every state the environment exposes
+during any episode – after reset, after every `step` with any agent action, every sub-state and
+the post-state of every transition applied inside a step – carries a feasible schedule. -/
+theorem c01_env_feasible {ec : EnvCfg} {st : RewardStatic} {s0 σ : State} (hst : Start orc inst s0)
+    (h : Exposed orc inst ec st s0 σ) : Feasible inst σ := by
+  obtain ⟨w, hI, t, hS⟩ := exposed_inv hst h
+  exact (feasible_of_inv (s := { σ with time := t }) w (hI.time t) hS).of_time
+
+/-- a running operation and a machine: the job is on that machine and the machine is busy with it -/
+theorem c01_running_on_busy {ec : EnvCfg} {st : RewardStatic} {s0 σ : State} (hst : Start orc inst s0)
+    (h : Exposed orc inst ec st s0 σ) (j : JobState) (hj : j ∈ σ.jobs) (o : OpState) (ho : o ∈ j.ops)
+    (hp : o.st = .processing) :
+    ∃ m ∈ σ.machines, m.id = o.machine ∧ m.st ≠ .idle ∧ m.buffer.store = [j.id] := by
+  obtain ⟨_, _, t, hS⟩ := exposed_inv hst h
+  exact hS.procOnBusy j hj o ho hp
+
+/-- the guard is satisfiable: the example instance and its initial state meet it -/
+example : initOKB Ex.inst Ex.s0 = true ∧ restB Ex.s0 = true ∧ nonnegB Ex.inst = true := by decide
 
 end JSL
